@@ -319,12 +319,12 @@ void Var::operator=(const Var& v)
 		memcpy(_s->data(), v._s->data(), v._s->length());
 		return;
 	}
-	if(_type == ARRAY && v._type == ARRAY) {
-		(*_a) = (*v._a);
-		return;
-	}
-	if(_type == OBJ && v._type == OBJ) {
-		(*_o) = (*v._o);
+	if(_type == ARRAY || _type == OBJ) {
+		// v can be an element or property of this container (a = a[0]): copy it before the container is released
+		Var x(v);
+		free();
+		memcpy(this, &x, sizeof(x));
+		x._type = NONE;
 		return;
 	}
 	
